@@ -33,7 +33,10 @@
 // moment the pre-install / pre-upgrade hook's create request is received (install, upgrade adding
 // X), or between an upgrade that dropped X and a rollback to the revision naming X. The op may
 // fail or succeed but must not patch, replace or delete X (mutated-foreign-object on the request
-// log, planted-object-changed on the store). All 9 ownership classes x resource kinds.
+// log, planted-object-changed on the store). Two more sequences plant X after a FAILED upgrade that
+// added X but never created it (its create was rejected), then run the upgrade again with the same
+// chart (must be refused: took-over-unowned) or with a chart that drops X (X must stay untouched).
+// All 9 ownership classes x resource kinds.
 //
 // "hist": the drift histories of C02 (gen.DriftCase: install/upgrade/rollback/uninstall with
 // failing ops, atomic, cleanup-on-fail, force, hooks with delete policies, out-of-band edits,
@@ -82,7 +85,7 @@ func init() {
 	core.Register(&core.Prop{
 		ID:    "C07",
 		Level: "exploration",
-		Rule: "place: every assignment of the 9 ownership classes to the to-be-created resources of charts with 1-2 (quick) / 1-3 (thorough) resource slots is enumerated, larger charts (up to 6 slots) are sampled; the enumerated placements are repeated, and the sampled ones mixed, with slots whose manifest document sets metadata.namespace to a second namespace where the pre-existing object lives, and with --atomic; each placement runs under install, install --replace over an uninstalled release with history, and upgrade adding the resources, with and without take-ownership, on memory/secrets/configmaps storage. race: for every ownership class and 3 (quick) / all 14 (thorough) resource kinds, a foreign object is planted while the pre-install/pre-upgrade hook is being created, or between an upgrade that dropped the resource and a rollback to the revision naming it. hist: seeded drift histories shared with C02 under the DELETE-target, foreign-mutation (PreOwner) and ownership-metadata monitors. " +
+		Rule: "place: every assignment of the 9 ownership classes to the to-be-created resources of charts with 1-2 (quick) / 1-3 (thorough) resource slots is enumerated, larger charts (up to 6 slots) are sampled; the enumerated placements are repeated, and the sampled ones mixed, with slots whose manifest document sets metadata.namespace to a second namespace where the pre-existing object lives, and with --atomic; each placement runs under install, install --replace over an uninstalled release with history, and upgrade adding the resources, with and without take-ownership, on memory/secrets/configmaps storage. race: for every ownership class and 3 (quick) / all 15 (thorough) resource kinds, a foreign object is planted while the pre-install/pre-upgrade hook is being created, between an upgrade that dropped the resource and a rollback to the revision naming it, or after a failed upgrade that added the resource but never created it (then the upgrade is retried with the same chart and with a chart dropping the resource). hist: seeded drift histories shared with C02 under the DELETE-target, foreign-mutation (PreOwner) and ownership-metadata monitors. " +
 			"distinct_nontrivial counts distinct (scenario, take-ownership, atomic, sorted multiset of ownership classes, number of other-namespace slots, verdict) tuples plus distinct (op kind+flags, outcome, #deletes) shapes of history ops that deleted something.",
 		Assumptions: []string{
 			"the simulated API server applies requests like a real API server and logs every request with the operation's tag; release storage goes through the same log",
@@ -527,7 +530,7 @@ func runPlace(res *core.Result, d caseData, verbose bool) {
 				checkMetadata(res, events, s1, l1, scenario, detail)
 			}
 			checkDeletes(res, events, nt.Snapshot(), scenario, detail)
-			checkForeignMutations(res, events, baseKeys(l0), nt.HookSnapshot(), takeOwn, scenario, detail)
+			checkForeignMutations(res, events, baseKeys(l0, op.Kind), nt.HookSnapshot(), takeOwn, scenario, detail)
 			if res.Sample == nil && len(offenders) > 0 {
 				res.Sample = map[string]any{"mode": "place", "driver": d.Driver, "scenario": scenario, "take_ownership": takeOwn, "resources": describe(), "expected": map[bool]string{true: "refuse", false: "accept"}[expectRefuse], "observed_error": r.ErrString(), "requests_of_op": len(events)}
 			}
@@ -578,15 +581,32 @@ func checkMetadata(res *core.Result, events []sim.Event, s1 map[string]string, l
 
 const ownOwner = "Helm|" + rel + "|" + ns
 
-// baseKeys: the objects named by the manifests the op starts from (the deployed revision and the
-// latest revision before the op). Updating or deleting those is "updated, not created".
-func baseKeys(l0 []env.Rec) map[string]bool {
+// baseKeys: the objects named by the manifests the op starts from, i.e. whose update or deletion
+// is "updated, not created": for upgrade the deployed revision (the latest one when none is
+// deployed), for rollback the latest and the deployed revision, for uninstall the latest one,
+// for install nothing. A failed latest revision is NOT a base of an upgrade: helm may never have
+// created what only that revision names.
+func baseKeys(l0 []env.Rec, opKind string) map[string]bool {
 	var base []env.Rec
-	if d := ref.LatestDeployed(l0); d != nil {
-		base = append(base, env.Rec{Manifest: d.Manifest})
-	}
-	if t := ref.TopRec(l0); t != nil {
-		base = append(base, env.Rec{Manifest: t.Manifest})
+	dep, top := ref.LatestDeployed(l0), ref.TopRec(l0)
+	switch opKind {
+	case "upgrade":
+		if dep != nil {
+			base = append(base, env.Rec{Manifest: dep.Manifest})
+		} else if top != nil {
+			base = append(base, env.Rec{Manifest: top.Manifest})
+		}
+	case "rollback":
+		if dep != nil {
+			base = append(base, env.Rec{Manifest: dep.Manifest})
+		}
+		if top != nil {
+			base = append(base, env.Rec{Manifest: top.Manifest})
+		}
+	case "uninstall":
+		if top != nil {
+			base = append(base, env.Rec{Manifest: top.Manifest})
+		}
 	}
 	return ref.ReleaseObjectKeys(nil, base, ns)
 }
@@ -700,7 +720,7 @@ func runHist(res *core.Result, d caseData, verbose bool) {
 			class += ")"
 		}
 		n := checkDeletes(res, o.Events, o.Named, class, detail)
-		checkForeignMutations(res, o.Events, baseKeys(o.L0), o.NamedHooks, o.Step.Op.TakeOwnership, class, detail)
+		checkForeignMutations(res, o.Events, baseKeys(o.L0, opc), o.NamedHooks, o.Step.Op.TakeOwnership, class, detail)
 		if o.Success() && opc != "uninstall" {
 			checkMetadata(res, o.Events, o.S1, o.L1, "hist: "+opc, detail)
 		}
@@ -759,7 +779,9 @@ func runRace(res *core.Result, d caseData, verbose bool) {
 		}
 		return f
 	}
-	for _, scenario := range []string{"install, object appears during the pre-install hook", "upgrade adding the resource, object appears during the pre-upgrade hook", "rollback to a revision naming an object that appeared meanwhile"} {
+	for _, scenario := range []string{"install, object appears during the pre-install hook", "upgrade adding the resource, object appears during the pre-upgrade hook", "rollback to a revision naming an object that appeared meanwhile",
+		"upgrade retried after a failed upgrade that never created the resource, object appeared meanwhile",
+		"upgrade dropping the resource after a failed upgrade that never created it, object appeared meanwhile"} {
 		if d.Only != "" && !strings.HasPrefix(scenario, d.Only) {
 			continue
 		}
@@ -782,18 +804,40 @@ func runRace(res *core.Result, d caseData, verbose bool) {
 		switch {
 		case strings.HasPrefix(scenario, "install"):
 			op, ch = env.Op{Kind: "install"}, mk(true, true, "c1")
-		case strings.HasPrefix(scenario, "upgrade"):
+		case strings.HasPrefix(scenario, "upgrade adding"):
 			w.Exec("pre-install", rel, env.Op{Kind: "install"}, mk(false, false, "c0").Build())
 			op, ch = env.Op{Kind: "upgrade"}, mk(true, true, "c1")
 			res.Evals++
-		default:
+		case strings.HasPrefix(scenario, "rollback"):
 			w.Exec("pre-install", rel, env.Op{Kind: "install"}, mk(true, false, "c1").Build())
 			w.Exec("pre-upgrade", rel, env.Op{Kind: "upgrade"}, mk(false, false, "c0").Build())
 			plant()
 			op, ch = env.Op{Kind: "rollback", ToRev: 1}, mk(false, false, "c0")
 			res.Evals += 2
+		default:
+			// revision 1 deployed without X; revision 2 adds X but the create of X is rejected, so
+			// revision 2 is failed and helm never created X; then X appears; then the upgrade is run again
+			w.Exec("pre-install", rel, env.Op{Kind: "install"}, mk(false, false, "c0").Build())
+			xname := slotName(s)
+			fl := w.Sim.AddFault(&sim.Fault{Match: func(r *sim.Req) bool {
+				return r.Agent == "pre-failing-upgrade" && r.Method == "POST" && r.Res != nil && r.Res.Kind == sl.Kind && r.Name == xname
+			}, Code: 500})
+			fr := w.Exec("pre-failing-upgrade", rel, env.Op{Kind: "upgrade"}, mk(true, false, "c1").Build())
+			w.Sim.ClearFaults()
+			res.Evals += 2
+			if fr.Err == nil || fl.Fired() == 0 {
+				res.Inconclusive = "race scenario: the preparing upgrade did not fail at the create of the resource"
+				continue
+			}
+			plant()
+			op = env.Op{Kind: "upgrade"}
+			if strings.HasPrefix(scenario, "upgrade retried") {
+				ch = mk(true, false, "c1")
+			} else {
+				ch = mk(false, false, "c2")
+			}
 		}
-		if op.Kind != "rollback" {
+		if strings.Contains(scenario, "hook") {
 			inner := w.Sim.Gate
 			w.Sim.Gate = func(r *sim.Req) {
 				if r.Agent == "op" && r.Method == "POST" && r.Class == "mutation" && r.Name == rel+"-prehook" {
@@ -843,6 +887,10 @@ func runRace(res *core.Result, d caseData, verbose bool) {
 					b, _ := json.Marshal(after)
 					res.Add("planted-object-changed", scenario+" · modified", "the foreign object was modified by the op; now %s | %s", b, detail())
 				}
+				if r.Err == nil && strings.HasPrefix(scenario, "upgrade retried") {
+					// X is in the new manifest, not in the deployed one, and existed unowned before the op started
+					res.Add("took-over-unowned", scenario+" · existing object: "+classNames[cl], "%s/%s existed (%s) and the op succeeded without take-ownership | %s", sl.Kind, slotName(s), classNames[cl], detail())
+				}
 				if r.Err == nil {
 					res.Stat("race_ops_succeeded_with_foreign_object_present", 1)
 				} else {
@@ -851,7 +899,7 @@ func runRace(res *core.Result, d caseData, verbose bool) {
 			}
 		}
 		checkDeletes(res, events, nt.Snapshot(), scenario, detail)
-		checkForeignMutations(res, events, baseKeys(l0), nt.HookSnapshot(), false, scenario, detail)
+		checkForeignMutations(res, events, baseKeys(l0, op.Kind), nt.HookSnapshot(), false, scenario, detail)
 		res.Key("race|%s|%s|%s", scenario, classNames[cl], verdict)
 		if res.Sample == nil && cl != clAbsent && cl != clOwned {
 			res.Sample = map[string]any{"mode": "race", "driver": d.Driver, "scenario": scenario, "object": sl.Kind + "/" + slotName(s), "planted_as": classNames[cl], "observed_error": r.ErrString(), "requests_of_op": len(events)}
